@@ -16,6 +16,25 @@ def floor_ms(t):
     return t - t % 1000
 
 
+def resolve_rewrites(case):
+    """the in-place rewrites of a case as [kind, index of the target in insertion order, new event]; contents after them"""
+    expect = [list(e) for e in case["events"]]
+    for idx, ev in case.get("replace", []):
+        expect[idx] = list(ev)
+    out = []
+    for kind, idx, dur in case.get("rewrites") or []:
+        if kind == "last":
+            top = max(e[1] for e in expect)
+            cands = [i for i, e in enumerate(expect) if e[1] == top]
+            if len(cands) > 1:
+                continue  # which of several newest events is "the last" is C02's subject
+            idx = cands[0]
+        ev = [None, expect[idx][1], dur, expect[idx][3]]
+        expect[idx] = ev
+        out.append([kind, idx, ev])
+    return out, expect
+
+
 class C03(Prop):
     ID = "C03"
     MODULE = "AwProofs.Props.C03"
@@ -71,8 +90,17 @@ class C03(Prop):
                 for _ in range(rng.randint(1, 3)):
                     repl.append([rng.randrange(n), [None, T0 + rng.randrange(0, 20) * 100 * MS, rng.choice([0, 100 * MS, 1000 * MS]), rng.choice([LA, LB])]])
             reopen = rng.random() < 0.2 and not repl
+            # after all the reads and counts some events are rewritten IN PLACE (same instant, another duration: what a heartbeat
+            # does to the newest event) and every read and count is asked again
+            rew = []
+            if rng.random() < 0.35:
+                for _ in range(rng.randint(1, 2)):
+                    if rng.random() < 0.5:
+                        rew.append(["last", None, rng.choice([0, 100 * MS, 1000 * MS, 3000 * MS, 5000 * MS])])
+                    else:
+                        rew.append(["id", rng.randrange(n), rng.choice([0, 100 * MS, 1000 * MS, 3000 * MS, 5000 * MS])])
             for be in storelib.BACKENDS:
-                out.append(("random-window", {"backend": be, "events": evs, "reads": reads, "replace": repl, "reopen": reopen}))
+                out.append(("random-window", {"backend": be, "events": evs, "reads": reads, "replace": repl, "reopen": reopen, "rewrites": rew}))
         # buckets and windows at the very start of the time range (the epoch itself is instant 0)
         for _ in range(ctx.pick(40, 600)):
             evs = [[None, rng.choice([0, 0, MS, 100 * MS, 1000 * MS]), rng.choice([0, 0, 1, MS, 500 * MS]), rng.choice([LA, LB])]
@@ -140,8 +168,14 @@ class C03(Prop):
             for idx, ev in case.get("replace", []):
                 b.replace(ids[idx], mk_event(ev))
             stored = storelib.dump(store)["w"]["events"]
-            outs = []
-            for lim, s, e, off in case["reads"]:
+
+            def do_reads():
+                outs = []
+                for lim, s, e, off in case["reads"]:
+                    outs.append(one_read(lim, s, e, off))
+                return outs
+
+            def one_read(lim, s, e, off):
                 if isinstance(off, str):
                     # window edges given in a real zone with daylight saving (zoneinfo sets the fold of an ambiguous wall time)
                     from zoneinfo import ZoneInfo
@@ -153,8 +187,18 @@ class C03(Prop):
                     ed = us_to_dt(e, off) if e is not None else None
                 r = [ev_tuple(x) for x in b.get(lim, sd, ed)]
                 c = b.get_eventcount(sd, ed)
-                outs.append({"get": r, "count": c})
-            return {"stored": stored, "reads": outs}
+                return {"get": r, "count": c}
+
+            res = {"stored": stored, "reads": do_reads()}
+            rws, _ = resolve_rewrites(case)
+            if rws:
+                for kind, idx, ev in rws:
+                    if kind == "last":
+                        b.replace_last(mk_event(ev))
+                    else:
+                        b.replace(ids[idx], mk_event(ev))
+                res["round2"] = {"stored": storelib.dump(store)["w"]["events"], "reads": do_reads()}
+            return res
         finally:
             store.close()
 
@@ -171,6 +215,17 @@ class C03(Prop):
         for lim, s, e, off in case["reads"]:
             L.append(pre + f"get {hx('w')} {lim} {p_opt(s)} {p_opt(e)}")
             L.append(pre + f"count {hx('w')} {p_opt(s)} {p_opt(e)}")
+        rws, _ = resolve_rewrites(case)
+        if rws:
+            for kind, idx, ev in rws:
+                if kind == "last":
+                    L.append(pre + f"replacelast {hx('w')} S {first + idx} {p_ev(ev)}")
+                else:
+                    L.append(pre + f"replace {hx('w')} {first + idx} {p_ev(ev)}")
+            L.append(pre + "dump")
+            for lim, s, e, off in case["reads"]:
+                L.append(pre + f"get {hx('w')} {lim} {p_opt(s)} {p_opt(e)}")
+                L.append(pre + f"count {hx('w')} {p_opt(s)} {p_opt(e)}")
         return L
 
     def model_out(self, case, answers):
@@ -181,9 +236,26 @@ class C03(Prop):
             t = answer(answers[k + 1 + 2 * i])
             c = answer(answers[k + 2 + 2 * i])
             outs.append({"get": t.list(t.ev), "count": c.int()})
-        return {"stored": stored, "reads": outs}
+        res = {"stored": stored, "reads": outs}
+        rws, _ = resolve_rewrites(case)
+        if rws:
+            k2 = k + 1 + 2 * len(case["reads"]) + len(rws)
+            outs2 = []
+            for i in range(len(case["reads"])):
+                t = answer(answers[k2 + 1 + 2 * i])
+                c = answer(answers[k2 + 2 + 2 * i])
+                outs2.append({"get": t.list(t.ev), "count": c.int()})
+            res["round2"] = {"stored": storelib.parse_dump(answers[k2])["w"]["events"], "reads": outs2}
+        return res
 
     def same(self, case, io, mo):
+        if ("round2" in io) != ("round2" in mo):
+            return False
+        if "round2" in io and not self.same_round(case, io["round2"], mo["round2"]):
+            return False
+        return self.same_round(case, io, mo)
+
+    def same_round(self, case, io, mo):
         if io["stored"] != mo["stored"]:
             return False
         be = case["backend"]
@@ -211,12 +283,21 @@ class C03(Prop):
         return True
 
     def oracle(self, case, out):
-        stored = out["stored"]
-        byid = {x[0]: x for x in stored}
-        be = case["backend"]
         expect = [list(e[1:]) for e in case["events"]]
         for idx, ev in case.get("replace", []):
             expect[idx] = list(ev[1:])
+        msg = self.oracle_round(case, out, expect)
+        if msg is None and "round2" in out:
+            _, exp2 = resolve_rewrites(case)
+            msg = self.oracle_round(case, out["round2"], [list(e[1:]) for e in exp2])
+            if msg is not None:
+                msg = "after events were rewritten in place (same instant, another duration) and the same reads were asked again: " + msg
+        return msg
+
+    def oracle_round(self, case, out, expect):
+        stored = out["stored"]
+        byid = {x[0]: x for x in stored}
+        be = case["backend"]
         if [x[1:] for x in sorted(stored, key=lambda x: x[0])] != expect:
             return "stored events differ from the inserted (and replaced) ones"
         for (lim, s, e, off), r in zip(case["reads"], out["reads"]):
